@@ -20,7 +20,12 @@ pub fn export(db: &DbIndex) -> Index {
 fn export_modules(db: &DbIndex) -> Vec<Module> {
     let type_index = db.get_type_index();
     let module_index = db.get_module_index();
-    let modules = module_index.get_module_infos();
+    // The index maps are hash maps: iterate them in a stable order so that exporting the same
+    // workspace twice gives the same output.
+    let mut modules = module_index.get_module_infos();
+    modules.sort_by(|a, b| {
+        (&a.full_module_name, a.file_id).cmp(&(&b.full_module_name, b.file_id))
+    });
     let vfs = db.get_vfs();
 
     modules
@@ -67,7 +72,8 @@ fn export_modules(db: &DbIndex) -> Vec<Module> {
 fn export_types(db: &DbIndex) -> Vec<Type> {
     let type_index = db.get_type_index();
     let module_index = db.get_module_index();
-    let types = type_index.get_all_types();
+    let mut types = type_index.get_all_types();
+    types.sort_by(|a, b| a.get_full_name().cmp(b.get_full_name()));
 
     types
         .into_iter()
@@ -96,9 +102,10 @@ fn export_globals(db: &DbIndex) -> Vec<Global> {
     let module_index = db.get_module_index();
     let type_index = db.get_type_index();
     let vfs = db.get_vfs();
-    let globals = global_index.get_all_global_decl_ids();
+    let mut globals = global_index.get_all_global_decl_ids();
+    globals.sort_by_key(|global| (global.file_id, global.position));
 
-    globals
+    let mut globals: Vec<Global> = globals
         .into_iter()
         .filter(|global| module_index.is_main(&global.file_id))
         .filter_map(|global| {
@@ -125,7 +132,20 @@ fn export_globals(db: &DbIndex) -> Vec<Global> {
                 })),
             }
         })
-        .collect()
+        .collect();
+
+    // Stable order (by name, declarations of one name in file/position order), and one entry
+    // per global: a global assigned in several places is listed once, at its first declaration.
+    globals.sort_by(|a, b| global_name(a).cmp(global_name(b)));
+    globals.dedup_by(|b, a| global_name(a) == global_name(b));
+    globals
+}
+
+fn global_name(global: &Global) -> &str {
+    match global {
+        Global::Table(table) => &table.name,
+        Global::Field(field) => &field.name,
+    }
 }
 
 fn export_class(db: &DbIndex, type_decl: &LuaTypeDecl) -> Class {
